@@ -185,8 +185,9 @@ func runIPServer(ctx context.Context, log *slog.Logger, mtrcs *ipServerMetrics,
 			log.LogAttrs(ctx, slog.LevelError, "failed to write packet", slog.Any("error", err))
 			continue
 		}
-		txt1, id, err := udp.ReadTXTimestamp(conn)
+		txt1, id, err := udp.ReadTXTimestampByID(conn, txid)
 		if err != nil {
+			txid++
 			txt1 = txt0
 			log.LogAttrs(ctx, slog.LevelError, "failed to read packet tx timestamp",
 				slog.Any("error", err))
